@@ -18,3 +18,4 @@ done
 cd /verif || exit 1
 git merge --no-edit agent-$ID 2>&1 | tail -3
 if git status --short | grep -q '^UU evidence/'; then git checkout --theirs evidence/ && git add evidence && git commit -q --no-edit && echo 'resolved evidence conflict (theirs)'; fi
+python3 /verif/tools/remap_fix_hashes.py
